@@ -669,7 +669,12 @@ func (fx *FnExec) execBuiltin(in ssa.Instruction, b *ssa.Builtin, c *ssa.CallCom
 			}
 			fx.notes = append(fx.notes, "unsupported builtin Add on a pointer that is not string data")
 		}
-	case "print", "println", "panic", "recover":
+	case "recover":
+		// The executions that are modelled are the ones in which nothing panics (every instruction that
+		// can panic carries an obligation; callees are assumed not to panic beyond their stated
+		// preconditions): in those, recover finds no panic in flight and answers nil.
+		setRes(Val{S: "nil-iface"})
+	case "print", "println", "panic":
 		if in2, ok := in.(ssa.Value); ok {
 			setRes(Val{S: fx.havoc("bi", fx.sortOf(in2.Type()))})
 		}
